@@ -334,6 +334,10 @@ def truth(expr, atom):
         return None if v is None else not v
     if isinstance(expr, ast.Constant):
         return bool(expr.value)
+    from .predtable import expand_quantifier
+    ex = expand_quantifier(expr)
+    if ex is not None:
+        return truth(ex, atom)
     return atom(expr)
 
 
